@@ -131,11 +131,11 @@ def stuck_location(stderr_text: str) -> str | None:
     i = stderr_text.rfind("most recent call first")
     if i < 0:
         return None
+    from .worker import _where
     for m in re.finditer(r'File "([^"]+)", line \d+ in (\S+)', stderr_text[i:]):
-        fn = m.group(1)
-        if "/vlib/" in fn or "/checks/" in fn:
-            continue
-        return "/".join(fn.split("/")[-2:]) + ":" + m.group(2)
+        w = _where(m.group(1))
+        if w:
+            return w
     return None
 
 
